@@ -211,7 +211,10 @@ func slotKeyGen(c *simrt.Chooser, tags []string, mix bool) func() []byte {
 			tag = tags[c.Choose("tag", len(tags))]
 		}
 		sfx := fmt.Sprintf("%d", c.Choose("sfx", 50))
-		switch c.Choose("kshape", 8) {
+		switch c.Choose("kshape", 9) {
+		case 8:
+			// a long key (keys may be up to 512 MB) whose hash tag stands far from its beginning
+			return []byte(strings.Repeat("L", 500+c.Choose("longkey", 1200)) + "{" + tag + "}" + sfx)
 		case 0:
 			return []byte("{" + tag + "}" + sfx)
 		case 1:
